@@ -49,7 +49,8 @@ ASSUMPTIONS = [
 ]
 TECHNIQUE = ("Coq proof (state invariant of the parse loop: every unwrap/expect/unreachable!/debug_assert site of "
              "parser.rs/arg_matcher.rs on the path is dead for commands accepted by the validity gate; fuel = tree depth "
-             "suffices; ignore_errors swallows every stderr-class error; panic-site table regenerated from the Rust source "
+             "suffices -- for definitions without short flag-subcommands and, with the invariant generalised over "
+             "flag_subcmd_at/flag_subcmd_skip, for the boolean class flag_sub_class with them; ignore_errors swallows every stderr-class error; panic-site table regenerated from the Rust source "
              "and proved equal to the model's, in both directions; model of the error value, its constructors and "
              "RichFormatter with 'rendering never panics and gets its context') + extracted-model/implementation "
              "correspondence (outcome class; for errors also context kinds, value variants, message form)")
